@@ -1198,6 +1198,29 @@ class Engine:
             return VBool(conds[0])
         return VBool(z3.And(conds))
 
+    def _same_heap_container(self, a, b):
+        """Two container values read from the same field of the same object
+        (a container stored in a field is identified with that slot in this
+        value model) in a function that never assigns that attribute: the same
+        object.  Anything else stays undecided."""
+        if not (isinstance(a, (VList, VDict)) and isinstance(b, (VList, VDict))
+                and type(a) is type(b)):
+            return False
+        la, lb = a.lid, b.lid
+        if not (isinstance(la, tuple) and la == lb and la[0] == "heap"):
+            return False
+        field = la[1].split(".")[-1]
+        for n in ast.walk(self.cur_node):
+            if isinstance(n, ast.Attribute) and n.attr == field and \
+                    not isinstance(n.ctx, ast.Load):
+                return False
+            if isinstance(n, ast.Call) and isinstance(n.func, ast.Name) and \
+                    n.func.id in ("setattr", "delattr"):
+                return False
+        if isinstance(a, VDict):
+            return a.dom.eq(b.dom) and a.val.eq(b.val)
+        return a.arr.eq(b.arr) and a.n.eq(b.n)
+
     def compare(self, st, op, a, b, line):
         r = self.lib.compare(st, op, a, b, line)
         if r is not None:
@@ -1214,6 +1237,8 @@ class Engine:
                 e = a.t == b.t
             elif isinstance(a, VBool) and isinstance(b, VBool):
                 e = a.t == b.t
+            elif self._same_heap_container(a, b):
+                e = z3.BoolVal(True)
             else:
                 raise Unsupported(f"`is` on {a!r}, {b!r}")
             return e if isinstance(op, ast.Is) else z3.Not(e)
